@@ -149,8 +149,8 @@ func (g *valGen) looseObj(any bool) *hs.ObjV {
 	return o
 }
 
-// conforming builds a value of type t. In json mode it builds what a JSON document can denote:
-// `null` (rendered from none) for null/none, the bare payload for Some(..), an object for {?}.
+// conforming builds a value of type t. In json mode it builds what parse_json yields for a document
+// denoting such a value: null for null/none, the bare payload for Some(..), an object for {?}.
 func (g *valGen) conforming(t hs.Type) hs.Value {
 	switch t.K {
 	case hs.KInt:
@@ -162,9 +162,6 @@ func (g *valGen) conforming(t hs.Type) hs.Value {
 	case hs.KStr:
 		return g.strV()
 	case hs.KNull:
-		if g.json {
-			return hs.OptV{}
-		}
 		return hs.NullV{}
 	case hs.KRange:
 		return rangePool[g.ch.Pick(len(rangePool), "range")]
@@ -184,6 +181,9 @@ func (g *valGen) conforming(t hs.Type) hs.Value {
 		return o
 	case hs.KOpt:
 		if g.ch.Pick(3, "some") == 2 {
+			if g.json {
+				return hs.NullV{}
+			}
 			return hs.OptV{}
 		}
 		in := g.conforming(*t.Elem)
@@ -338,11 +338,11 @@ func (g *valGen) nearMiss(kind string, n node) (hs.Value, []PathElem, bool) {
 			return pick(hs.IntV(3), hs.StrV("0..3")), n.Path, true
 		}
 	case "null-not-allowed":
-		if g.json {
-			return nil, nil, false // JSON has one null; see none-not-allowed
-		}
 		return hs.NullV{}, n.Path, true
 	case "none-not-allowed":
+		if g.json {
+			return nil, nil, false // JSON has one null
+		}
 		return hs.OptV{}, n.Path, true
 	case "some-where-plain":
 		if g.json {
@@ -462,9 +462,6 @@ func (g *valGen) convertible(kind string, n node) (hs.Value, bool) {
 		}
 		return raw, true
 	case "conv:null-opt":
-		if g.json {
-			return nil, false
-		}
 		return hs.NullV{}, true
 	}
 	return nil, false
